@@ -15,6 +15,7 @@ CONSTANTS
     MaxSpans = 2
     IncomingKinds <- MC_IncPartial
     WithLazy = TRUE
+    CtxForms <- MC_Forms
     Emit = TRUE
 VIEW sview
 INVARIANTS InnermostWins NoTrace StackOK FrameIds AmbientIds OneTrace ParentIsEnclosing EventCarriesInnermost IdsDistinct
